@@ -46,6 +46,8 @@ def cases(rng, tier):
         + S.size_bound_cases(random.Random("size" + str(rng.getstate()[1][0]))) \
         + X.directed_corrupt_cases() + X.gen_corrupt_cases(rng, 300 if tier == "quick" else 6000) \
         + X.directed_image_cases() + X.image_cases(random.Random("img" + str(rng.getstate()[1][0])), 150 if tier == "quick" else 3000) \
+        + [dict(c, suite="extras-corrupt", nested=False, corrupt=[random.Random(str(i)).randrange(len(c["fields"])), i % len(X.CORRUPTIONS), i % 3])
+           for i, c in enumerate(X.undef_cases(random.Random("undefc" + str(rng.getstate()[1][0])), 100 if tier == "quick" else 2000))] \
         + X.decimal_cases() + IH.directed_cases() + IH.gen_cases(random.Random(str(rng.getstate()[1][0])), 300 if tier == "quick" else 6000)
 
 
@@ -130,6 +132,11 @@ def judge(case, impl, model):
                 fails.append((f"differs-from-constructor:{kinds}", "deserialized instance differs from the constructor's: " + json.dumps(got["ok"])[:200] + " vs " + json.dumps(exp["ok"])[:200]))
         elif "ok" in got:
             fails.append((f"accepts-non-image:{kinds}", "Deserializer accepts a document that is not the JSON form of constructor-valid arguments: " + json.dumps(case["doc"])[:250]))
+    fn = impl.get("deser_fn")
+    if fn is not None:
+        if ("ok" in fn) != ("ok" in got) or ("err" in fn and fn["err"] != got["err"]) or ("ok" in fn and not S._same(fn["ok"], got["ok"])):
+            fails.append((f"deserialize-fn-differs:{kinds}", "deserialize_structure(cls, d, keep_undefined=...) and Deserializer(cls).deserialize(d) disagree: "
+                          + json.dumps(fn)[:150] + " vs " + json.dumps(got)[:150] + " for " + json.dumps(case["doc"])[:150]))
     if impl.get("doc_unchanged") is False:
         fails.append((f"mutates-document:{kinds}", "Deserializer modified the caller's document (C19)"))
     return msg, fails
